@@ -449,7 +449,37 @@ func JoinQuery(rt *rapid.T, db *model.DB, misaddress bool) Select {
 	if misaddress {
 		// (addressing an aliased table through its name is not generated: the property
 		// says the alias works, not that the name must stop working)
-		switch rapid.SampledFrom([]int{0, 0, 2}).Draw(rt, "mis") {
+		switch rapid.SampledFrom([]int{0, 0, 2, 3}).Draw(rt, "mis") {
+		case 3:
+			// two occurrences under ONE name - the same table twice without aliases, the same alias
+			// twice, an alias that is another joined table's name - and a column both have, unqualified:
+			// nothing says which occurrence is meant
+			t := sides[0].t
+			a, b := TableRef{Name: t.Name}, TableRef{Name: t.Name}
+			switch rapid.IntRange(0, 2).Draw(rt, "mis3") {
+			case 1:
+				a.Alias, b.Alias = "x", "x"
+			case 2:
+				if len(sides) > 1 && sides[1].t.Name != t.Name {
+					a = TableRef{Name: sides[1].t.Name, Alias: t.Name}
+				}
+			}
+			one, two := model.Int(1), model.Int(1)
+			col := t.Cols[0].Name
+			q = Select{From: &a, Joins: []Join{{Type: rapid.SampledFrom([]string{"inner", "left", "right"}).Draw(rt, "mis3jt"), Table: b,
+				On: &model.Cond{Or: [][]model.Cmp{{{L: model.Operand{Lit: &one}, Op: "=", R: model.Operand{Lit: &two}}}}}}}}
+			switch rapid.IntRange(0, 2).Draw(rt, "mis3where") {
+			case 0:
+				q.Items = []SelItem{{Kind: "col", Col: &ColRef{Name: col}}}
+			case 1:
+				q.Items = []SelItem{{Kind: "star"}}
+				v := model.Int(1)
+				q.Where = &model.Cond{Or: [][]model.Cmp{{{L: model.Operand{Col: col}, Op: "=", R: model.Operand{Lit: &v}}}}}
+			default:
+				q.Items = []SelItem{{Kind: "star"}}
+				q.Joins[0].On = &model.Cond{Or: [][]model.Cmp{{{L: model.Operand{Col: col}, Op: "=", R: model.Operand{Lit: &one}}}}}
+			}
+			return q
 		case 0: // unqualified although the name exists on both sides
 			for n, c := range nameCount {
 				if c > 1 {
@@ -461,7 +491,15 @@ func JoinQuery(rt *rapid.T, db *model.DB, misaddress bool) Select {
 						v := model.Int(1)
 						q.Where = &model.Cond{Or: [][]model.Cmp{{{L: model.Operand{Col: n}, Op: "=", R: model.Operand{Lit: &v}}}}}
 					default:
-						q.Joins[len(q.Joins)-1].On.Or[0][0].L = model.Operand{Col: n}
+						// in any comparison of the last ON condition, not only the first
+						on := q.Joins[len(q.Joins)-1].On
+						oi := rapid.IntRange(0, len(on.Or)-1).Draw(rt, "misor")
+						ci := rapid.IntRange(0, len(on.Or[oi])-1).Draw(rt, "misand")
+						if rapid.Bool().Draw(rt, "misright") {
+							on.Or[oi][ci].R = model.Operand{Col: n}
+						} else {
+							on.Or[oi][ci].L = model.Operand{Col: n}
+						}
 					}
 					break
 				}
